@@ -9,11 +9,13 @@
 package vsched
 
 import (
+	"context"
 	"fmt"
 	"runtime"
 	"runtime/debug"
 	"strings"
 	"sync"
+	"time"
 )
 
 // Thread is one controlled goroutine.
@@ -54,21 +56,22 @@ type Exec struct {
 	// Livelock: the step horizon was hit and the environment's observable state (bytes moved, connections
 	// opened/closed, events delivered, harness steps) had not changed during the last half of the horizon:
 	// library threads kept running without any effect - a spin, not a long execution.
-	Livelock     bool
-	lastProgress int
-	Deadlock   bool
-	Parked     []string // description of threads parked at the end
-	Panic      string
-	Trace      []string
-	tracing    bool
-	objvc      map[interface{}]VC
-	acc        map[accKey]*accState
-	Races      []Race
-	raceSeen   map[string]bool
-	Accesses   int
-	User       interface{} // harness-owned per-execution state
-	finished   bool
-	divergence string
+	Livelock      bool
+	lastProgress  int
+	timerExpiries int
+	Deadlock      bool
+	Parked        []string // description of threads parked at the end
+	Panic         string
+	Trace         []string
+	tracing       bool
+	objvc         map[interface{}]VC
+	acc           map[accKey]*accState
+	Races         []Race
+	raceSeen      map[string]bool
+	Accesses      int
+	User          interface{} // harness-owned per-execution state
+	finished      bool
+	divergence    string
 }
 
 // ListenHook, when set, replaces the network listen of the instrumented varlink package.
@@ -372,6 +375,54 @@ type Result struct {
 type Config struct {
 	Horizon int
 	Trace   bool
+}
+
+// ---- time behind a seam: contexts with a timeout created by the code under test ----
+
+// TimeoutCtxHook is installed by vnet: it returns a context whose expiry is a step of a timer thread.
+var TimeoutCtxHook func(parent context.Context) (context.Context, context.CancelFunc)
+
+// MaxTimerExpiries bounds how many library timers may fire in one execution (after that, time stands still),
+// so that code which polls on a timer still lets the execution end.
+const MaxTimerExpiries = 3
+
+// TimerBudget reports whether another library timer may fire in this execution, and consumes one firing.
+func TimerFire() bool {
+	x := X
+	if x == nil || x.timerExpiries >= MaxTimerExpiries {
+		return false
+	}
+	x.timerExpiries++
+	x.lastProgress = x.Steps
+	return true
+}
+
+// TimerMayFire: a timer thread is enabled only while the execution's timer budget lasts.
+func TimerMayFire() bool { return X != nil && X.timerExpiries < MaxTimerExpiries }
+
+// WithTimeout / WithDeadline replace context.WithTimeout / WithDeadline in instrumented code: inside a
+// controlled execution the expiry instant is chosen by the scheduler (any point, budget permitting).
+func WithTimeout(parent context.Context, d time.Duration) (context.Context, context.CancelFunc) {
+	if X == nil || TimeoutCtxHook == nil {
+		return context.WithTimeout(parent, d)
+	}
+	return TimeoutCtxHook(parent)
+}
+
+func WithDeadline(parent context.Context, t time.Time) (context.Context, context.CancelFunc) {
+	if X == nil || TimeoutCtxHook == nil {
+		return context.WithDeadline(parent, t)
+	}
+	return TimeoutCtxHook(parent)
+}
+
+// Sleep replaces time.Sleep: time passing is a scheduling point, nothing more.
+func Sleep(d time.Duration) {
+	if X == nil {
+		time.Sleep(d)
+		return
+	}
+	Yield("sleep", "time", always)
 }
 
 // EnvProgress is called by the environment (vnet, harness threads) whenever its observable state changes.
